@@ -63,7 +63,10 @@ func (e *Exporter) Shutdown(ctx context.Context) error {
 		return nil
 	}
 
-	e.client.Store(newNoopClient())
+	if c := e.client.Swap(newNoopClient()); c != nil && c.stop != nil {
+		// Interrupt any export that is still in flight.
+		c.stop()
+	}
 	return nil
 }
 
